@@ -226,6 +226,18 @@ func (e *Engine) callExternal(fn *types.Func, recv Value, args []Value, cx *ast.
 		}
 		st.assume(mkForall([]*Term{x}, mkImplies(mkEq(sv, formatted), mkAnd(mkEq(err, nilT), mkEq(val, x))), [][]*Term{{formatted}}))
 		return VTuple{e.wrap(val, rt), VTerm{T: err, Typ: sig.Results().At(1).Type()}}
+	case "encoding/csv.Writer.Write":
+		// buffered: what was written is pending until the next Flush
+		st.mem["csvpending:"+term(recv).String()] = tTrue
+		return VTerm{T: e.fresh("err", SRef), Typ: fn.Type().(*types.Signature).Results().At(0).Type()}
+	case "encoding/csv.Writer.Flush":
+		st.mem["csvpending:"+term(recv).String()] = tFalse
+		return VTuple{}
+	case "encoding/csv.Writer.Error":
+		// Error reports what Write and Flush have met so far: asked while records are still pending, it cannot know
+		// whether they will reach the underlying writer (ghost csverrfinal(w): nothing was pending when it was asked)
+		st.mem["csverrfinal:"+term(recv).String()] = mkNot(st.getMem("csvpending:"+term(recv).String(), tFalse))
+		return VTerm{T: e.fresh("err", SRef), Typ: fn.Type().(*types.Signature).Results().At(0).Type()}
 	case "database/sql.Rows.Close":
 		st.mem["sqlclosed:"+recv.(VTerm).T.String()] = tTrue
 		return VTerm{T: e.fresh("err", SRef), Typ: fn.Type().(*types.Signature).Results().At(0).Type()}
